@@ -130,6 +130,9 @@ func (t tupleVariation) calculateScalar(coords []VarCoord, sharedTuples [][]VarC
 
 	startTuple, endTuple := t.IntermediateTuples[0].Values, t.IntermediateTuples[1].Values
 	hasIntermediate := startTuple != nil
+	if len(peakTuple) < endIdx || hasIntermediate && (len(startTuple) < endIdx || len(endTuple) < endIdx) {
+		return 0. // the tuples of 'gvar' have fewer axes than 'fvar'
+	}
 
 	var scalar float32 = 1.
 	for i := startIdx; i < endIdx; i++ {
